@@ -1048,7 +1048,10 @@ func (e *AnimEncoder) increasePreviousDuration(durMS int) error {
 	e.prevMuxIndex = e.muxer.NumFrames() - 1
 	e.frameCount++
 	e.countSinceKeyframe++
-	// prevCanvas and prevFrameRect remain unchanged since the canvas is identical.
+	// prevCanvas remains unchanged since the canvas is identical, but the
+	// "previous frame" is now the 1x1 filler: a later dispose-to-background
+	// decision applies to its rectangle, not to the older frame's.
+	e.prevFrameRect = image.Rect(0, 0, 1, 1)
 	return nil
 }
 
